@@ -94,7 +94,37 @@ theorem lingo_tree : ∀ (s : Stmt), FragX s = true → ∀ (n : Node), EmbT s n
     simp only [FragX] at hf
     exact lingo_stmt (.mcall o m as) hf n h ind
   | .tell .., hf, _, _, _ => by simp [FragX] at hf
-  | .repeatIn .., hf, _, _, _ => by simp [FragX] at hf
+  | .repeatIn v l body, hf, n, h, ind => by
+    cases v with
+    | var k v =>
+      cases k with
+      | loc =>
+        simp only [EmbT] at h
+        obtain ⟨p, rp, re, pb, pk, pc, pl, pv, ln, body', rfl, hl, hbody⟩ := h
+        simp only [FragX, Bool.and_eq_true] at hf
+        obtain ⟨⟨_, hfl⟩, hfbody⟩ := hf
+        have e1 := lingo_emb l hfl ln hl 0
+        have e3 := lingo_trees body hfbody body' hbody (ind + 1)
+        have hfc : FragE (.bin .le (.int 1) (.call "count".toList [l])) = true := by
+          have hg : gvClash "count".toList [l] = false := by
+            cases l <;> first | rfl | (simp only [gvClash]; decide)
+          have hid : idOk "count".toList = true := by decide
+          have hpc : plainCallName "count".toList = true := by decide
+          simp only [FragE, FragL, hfl, Bool.and_true, Bool.and_eq_true, decide_eq_true_eq, Bool.not_eq_true', List.isEmpty_cons]
+          repeat' constructor
+          all_goals first | exact hid | exact hpc | exact hg | simp
+        have ec : lingo false (.binary (S "lte") pb (.leaf .const (.s (S "1")) pk)
+              (.callFn (.s (S "count")) pc (.loadList (S "<load_list>") pl [ln]) true false false .none)) 0
+            = .ok (.s (mE (.bin .le (.int 1) (.call "count".toList [l])))) :=
+          lingo_emb _ hfc _ ⟨pb, _, _, rfl, ⟨pk, rfl⟩, ⟨pc, pl, false, [ln], rfl, ⟨ln, [], rfl, hl, rfl⟩⟩⟩ 0
+        generalize hcn : Node.binary (S "lte") pb (Node.leaf Leaf.const (Name.s (S "1")) pk)
+          (Node.callFn (Name.s (S "count")) pc (Node.loadList (S "<load_list>") pl [ln]) true false false Node.none) = cn' at ec ⊢
+        have h1 : ¬ (S "for_in" = S "while") := by decide
+        have h2 : ¬ (S "for_in" = S "for") := by decide
+        simp only [lingo, ec, e1, e3, h1, h2, if_false, bind, Except.bind, pure, Except.pure, Lscr.Name.asStr, Lscr.Name.str, mS, mE,
+          List.append_assoc]
+      | _ => simp [FragX] at hf
+    | _ => simp [FragX] at hf
   | .exitRepeat, hf, _, _, _ => by simp [FragX] at hf
 theorem lingo_trees : ∀ (ss : List Stmt), FragXs ss = true → ∀ (ns : List Node), EmbTs ss ns → ∀ (ind : Nat),
     lingoStmts ns ind = .ok (mSs ind ss)
